@@ -5,6 +5,7 @@
 #include "common/fachook.hpp"
 #include "common/framework.hpp"
 #include "common/zoo.hpp"
+#include <iostream>
 
 using T = double;
 using namespace vz;
@@ -89,6 +90,8 @@ static void run_case(vf::Ctx& ctx, const Fac& fac, const Spec& sp, SortRule rule
     catch (const std::exception&) { ctx.count("compute_exception"); ctx.count("evals"); return; }
     ctx.count("evals");
     ctx.count("class/" + cls);
+    // judge(rule, spec, phase, strict): both oracles on the state the solver is in now
+    auto judge = [&](SortRule rule, const Spec& sp, const std::string& phase, bool strict) {
     auto ev = es->eigenvalues();
     const SortRule base = rule == SortRule::BothEnds ? SortRule::LargestAlge : rule;
     // ---- oracle 1 (every run, every outcome): the returned values are the rule's choice among the Ritz values of the final factorization.
@@ -133,13 +136,21 @@ static void run_case(vf::Ctx& ctx, const Fac& fac, const Spec& sp, SortRule rule
                 {
                     auto j = vf::J().kv("solver", FAMILY[d.family]).kv("rule", rule_name(rule)).kv("class", cls).kv("n", d.n).kv("nev", d.nev).kv("ncv", d.ncv).kv("sigma", (double) d.sigma)
                                  .kv("info", info_name(es->info())).kv("returned", (long) ev.size()).kv("worst_key_distance_rel", worstk);
-                    ctx.violation(std::string(FAMILY[d.family]) + "/" + rule_name(rule) + "/returned-value-not-among-the-rule's-top-Ritz-values", j.str());
+                    {
+                        std::string a, b, c;
+                        char buf[64];
+                        std::vector<LD> ts = top; std::sort(ts.begin(), ts.end());
+                        for (LD t : ts) { snprintf(buf, sizeof buf, "%.10Lg ", t); a += buf; }
+                        for (long i = 0; i < (long) ev.size(); i++) { const auto z = iterated(d.family, std::complex<LD>(ev[i]), (LD) d.sigma, (LD) d.sigmai); snprintf(buf, sizeof buf, "%.10Lg ", want_key(base, z)); b += buf; snprintf(buf, sizeof buf, "(%.8g,%.8g) ", (double) std::complex<double>(ev[i]).real(), (double) std::complex<double>(ev[i]).imag()); c += buf; }
+                        j.kv("top_ritz_keys", a).kv("returned_keys", b).kv("returned_values", c).kv("sigmai", (double) d.sigmai).kv("num_iterations", (long) es->num_iterations());
+                    }
+                    ctx.violation((tag.empty() ? std::string(FAMILY[d.family]) + "/" + rule_name(rule) : tag) + "/returned-value-not-among-the-rule's-top-Ritz-values" + phase, j.kv("phase", phase.empty() ? "init();compute(rule)" : phase).str());
                 }
             }
         }
     }
-    if (es->info() != CompInfo::Successful) { ctx.count("not_successful"); ctx.count("inconclusive_class/" + cls); return; }
-    ctx.count("successful_runs");
+    if (es->info() != CompInfo::Successful) { ctx.count("not_successful" + phase); if (phase.empty()) ctx.count("inconclusive_class/" + cls); return; }
+    ctx.count("successful_runs" + phase);
     // ---- oracle 2 (Successful runs): the returned set is the rule's top-k of the spectrum. Sharp when ncv = n (every Ritz value is an eigenvalue);
     // elsewhere implicit restart with early stopping can miss a wanted eigenvalue sporadically - counted here, judged in the fixed corpus.
     std::vector<LD> got, want, allk;
@@ -153,17 +164,57 @@ static void run_case(vf::Ctx& ctx, const Fac& fac, const Spec& sp, SortRule rule
     LD worst = 0;
     for (size_t i = 0; ok && i < got.size(); i++) { worst = std::max(worst, std::abs(got[i] - want[i]) / spread); }
     const bool miss = !ok || worst > sp.gap / 4;
-    if (strict || !tag.empty())
+    if (strict || (!tag.empty() && (phase.empty() || sp.gap >= 0.005)))
     {
         if (ok) ctx.maxratio(tag.empty() ? "key-mismatch/gap (ncv=n)" : "corpus:key-mismatch/gap", worst / (sp.gap / 4));
         if (miss)
         {
             auto j = vf::J().kv("solver", FAMILY[d.family]).kv("rule", rule_name(rule)).kv("class", cls).kv("n", d.n).kv("nev", d.nev).kv("ncv", d.ncv).kv("sigma", (double) d.sigma)
                          .kv("gap_rel", sp.gap).kv("returned", (long) ev.size()).kv("worst_key_error_rel", worst).kv("restarts", (long) es->num_iterations() - 1);
-            ctx.violation(tag.empty() ? std::string(FAMILY[d.family]) + "/" + rule_name(rule) + "/wrong-set" : tag + "/wrong-set", j.str());
+            ctx.violation(tag.empty() ? std::string(FAMILY[d.family]) + "/" + rule_name(rule) + "/wrong-set" + phase : tag + "/wrong-set" + phase, j.kv("phase", phase.empty() ? "init();compute(rule)" : phase).str());
         }
     }
-    else if (miss) ctx.count("early_stop_miss_observed/" + cls.substr(0, cls.rfind('/')));
+    else if (miss && phase.empty()) ctx.count("early_stop_miss_observed/" + cls.substr(0, cls.rfind('/')));
+    };
+    judge(rule, sp, "", strict);
+    // ---- the same solver object asked again, without init(), for a different rule: what it reports then must be what the new rule names
+    // (a result cached from the earlier call must not be handed back). Exploration cases only: the fixed corpus stays as it is.
+    // Judged in the exploration when the first call ended Successful (a sound factorization to continue from); after a NotConverging first call the
+    // factorization may already have lost orthogonality (recorded defect, DESIGN.md 4.2) - those continuations are judged on the fixed corpus only.
+    const bool first_ok = es->info() == CompInfo::Successful;
+    if (ctx.rng.coin(0.5) && (first_ok || !tag.empty()))
+    {
+        const auto& rules = Fac::is_gen ? GEN_SELECT : SYM_SELECT;
+        SortRule rule2 = ctx.rng.pick(rules);
+        if (rule2 == rule) rule2 = rules[(size_t) ((std::find(rules.begin(), rules.end(), rule) - rules.begin() + 1) % rules.size())];
+        Spec sp2;
+        std::vector<std::complex<LD>> nu(sp.lam.size());
+        for (size_t q = 0; q < nu.size(); q++) nu[q] = iterated(d.family, sp.lam[q], (LD) d.sigma, (LD) d.sigmai);
+        const bool have = pick_wanted(rule2, nu, d.nev, sp2);
+        sp2.lam = sp.lam;
+        bool threw = false;
+        if (getenv("C04_DEBUG"))
+        {
+            std::cerr.precision(12);
+            { LD md = 1e9; for (auto& l : sp.lam) md = std::min(md, std::abs(l - std::complex<LD>((LD) d.sigma, (LD) d.sigmai))); std::cerr << "n " << d.n << " nev " << d.nev << " ncv " << d.ncv << " sigma " << d.sigma << " " << d.sigmai << " min|lam-sigma| " << (double) md << "\n"; }
+            std::cerr << "first: info " << info_name(es->info()) << " it " << es->num_iterations() << " ev " << es->eigenvalues().transpose() << "\nH ritz before second:\n";
+            Eigen::EigenSolver<Eigen::MatrixXd> eh(Eigen::MatrixXd(SpectraVerifAccess::fac(*es).matrix_H().real()), false);
+            std::cerr << eh.eigenvalues().transpose() << "\nfnorm " << SpectraVerifAccess::fac(*es).f_norm() << "\n";
+        }
+        try { (void) es->compute(rule2, maxit, T(1e-10), fac.sort_rules()[0]); }
+        catch (const std::exception&) { threw = true; ctx.count("compute_exception/second-compute"); }
+        if (!threw)
+        {
+            ctx.count("second_compute_other_rule");
+            if (getenv("C04_DEBUG"))
+            {
+                std::cerr << "second: info " << info_name(es->info()) << " it " << es->num_iterations() << " ev " << es->eigenvalues().transpose() << "\nH ritz after second:\n";
+                Eigen::EigenSolver<Eigen::MatrixXd> eh(Eigen::MatrixXd(SpectraVerifAccess::fac(*es).matrix_H().real()), false);
+                std::cerr << eh.eigenvalues().transpose() << "\nfnorm " << SpectraVerifAccess::fac(*es).f_norm() << "\n";
+            }
+            judge(rule2, sp2, "/second-compute-other-rule", strict && first_ok && have && sp2.gap >= 0.005);
+        }
+    }
     if (es->num_iterations() > 1) ctx.nontriv(std::string(FSHORT[d.family]) + "/" + rule_name(rule) + "/" + std::to_string(d.n) + "/" + std::to_string(d.nev) + "/" + std::to_string(d.ncv) + "/" + std::to_string((double) sp.lam[0].real()));
     if (ctx.want_sample) ctx.set_sample(vf::J().kv("solver", FAMILY[d.family]).kv("rule", rule_name(rule)).kv("class", cls).kv("n", d.n).kv("nev", d.nev).kv("ncv", d.ncv).kv("gap_rel", sp.gap).kv("info", info_name(es->info())).kv("restarts", (long) es->num_iterations() - 1).str());
 }
